@@ -54,6 +54,9 @@ type Branch struct {
 	Multi   bool     `json:"multi,omitempty"`
 	Stream  bool     `json:"stream,omitempty"` // condition reads the stream form
 	Salt    int      `json:"salt,omitempty"`
+	// Force, when non-nil, replaces the hash decision (used to enumerate outcome vectors);
+	// an entry "-" stands for the empty selection.
+	Force []string `json:"force,omitempty"`
 }
 
 // Spec is a whole graph.
@@ -188,6 +191,15 @@ func F(tag string, digest bool, in string) string {
 
 // Select evaluates a branch condition on the canonical value.
 func (b *Branch) Select(canon string) []string {
+	if b.Force != nil {
+		var out []string
+		for _, f := range b.Force {
+			if f != "-" {
+				out = append(out, f)
+			}
+		}
+		return out
+	}
 	h := hash32(canon, b.Salt)
 	if !b.Multi {
 		return []string{b.Targets[int(h%uint32(len(b.Targets)))]}
